@@ -71,6 +71,45 @@ func init() {
 	})
 }
 
+func init() {
+	checks = append(checks, &CheckSpec{
+		Prop:    "C11",
+		Harness: []string{"c06_expr.go", "c05_fixpoint.go", "c11_limits.go"},
+		Entries: []EntrySpec{
+			{Pkg: "datalog", Func: "VerifC11Limits", Quick: p("depth", 2), Thorough: p("depth", 3), Covers: []string{"returned", "success", "error"}},
+			{Pkg: "datalog", Func: "VerifC11Outcomes", Quick: p(), Thorough: p(), Covers: []string{"returned", "invalid-rule", "expr-error"}},
+		},
+		Assumptions: append([]string{
+			"limit direction of the claim uses a chain program of known depth d <= 2 (quick) / 3 (thorough) with symbolic names/constant: fixpoint has d+1 facts and needs d+1 iterations; maxFacts in [0,1000] and maxIterations in [0,100] fully symbolic",
+			"time is a symbolic input: the deadline may pass at any poll of ctx.Done, at the caller's select, or race with the worker's final send; rule heads cannot contain expressions, so divergence reduces to exceeding a limit",
+		}, stdAssumptions...),
+		Models:      []string{modelCtx, modelBig},
+		Explanation: "World.Run with its worker goroutine, select statements and timeout context is interpreted with a deterministic scheduler and a symbolic timer; outcomes are compared with the known fixpoint size/depth of the template and any goroutine left blocked after return is reported",
+		LevelText:   "Bounded symbolic model checking of World.Run: symbolic limits and a symbolic deadline over a program family of known fixpoint depth; asserts that success implies the complete fixpoint within the limits, that exceeding a limit yields exactly that limit's sentinel, that non-limit errors are distinguishable, and that after every outcome no goroutine started by the evaluation stays blocked forever (checked on all interpreter threads at quiescence).",
+		LevelNote:   "Template programs only for the 'limit exceeded => error' direction (needed iteration counts are not observable for arbitrary programs); scheduler explores deadline positions, not arbitrary preemption (the code's only other synchronisation is a producer/consumer coroutine).",
+		DesignRef:   "DESIGN.md §6 C11",
+	})
+}
+
+func init() {
+	checks = append(checks, &CheckSpec{
+		Prop:    "C20",
+		Harness: []string{"c20_entropy.go"},
+		Entries: []EntrySpec{
+			{Pkg: "biscuit", Func: "VerifC20Entropy", Quick: p(), Thorough: p(), Covers: []string{"returned", "failing-source", "good-source", "verified"}, Solver: "cvc5"},
+		},
+		Assumptions: append([]string{
+			"the supplied source delivers k symbolic bytes (k = 0..32, every value) in one read, byte-by-byte or in 7-byte chunks, then returns an error; or never fails",
+			"operations: New, Builder.Build with WithRNG, Append",
+		}, stdAssumptions...),
+		Models:      []string{modelSig, modelCodec},
+		Explanation: "ed25519.GenerateKey and io.ReadFull are interpreted from the standard library source; the failure position is enumerated exhaustively and the delivered bytes are symbolic",
+		LevelText:   "Bounded symbolic model checking of every randomness-drawing operation against a source failing after k bytes for every k below 32 (all chunkings listed): error returned, no token, no panic on any goroutine; for a healthy source the stored next secret equals the delivered bytes, the announced key is its public key and the token verifies (ideal signature model).",
+		LevelNote:   "Real ed25519 key derivation trusted (used in native replay); failure modelled as error return from Read (not short reads with nil error beyond io.ReadFull's contract).",
+		DesignRef:   "DESIGN.md §6 C20",
+	})
+}
+
 var pendingReason = "check not built yet in this session (planned, see DESIGN.md); listed here so that the manifest stays truthful"
 
 var notApplicable = []naEntry{
